@@ -222,6 +222,9 @@ structure PairResult where
   bed : List (Nat × Nat)
   longestPositions : List Nat
   longestAgreement : List Nat
+  /-- every non-singleton intersection block: (positions, errors, agreement vector it would get) — the harness
+  accepts any block of maximal length as "the longest" (the code takes the first) -/
+  perBlock : List (List Nat × PhasingErrors × List Nat)
 deriving Repr
 
 structure PairState where
@@ -232,6 +235,7 @@ structure PairState where
   pairs : Nat := 0
   bed : List (Nat × Nat) := []
   total : PhasingErrors := ⟨0, 0, ⟨0, 0⟩, 0, 1⟩
+  perBlock : List (List Nat × PhasingErrors × List Nat) := []
 
 /-- the loop of `compare_pair` over `block_intersection.values()`; `none` = an exception -/
 def pairLoop (fixA fixB fix3 : Bool) (ploidy : Nat) (ph0 ph1 : List (Option (Nat × List Nat))) (common : List Nat) :
@@ -246,7 +250,9 @@ def pairLoop (fixA fixB fix3 : Bool) (ploidy : Nat) (ph0 ph1 : List (Option (Nat
     | none => none
     | some e =>
       let bed := if ploidy = 2 then st.bed ++ bedRecords (p0.headD []) (p1.headD []) positions else st.bed
-      let st1 : PairState := { st with bed := bed, total := addErrors st.total e, pairs := st.pairs + (block.length - 1) }
+      let agrAny := if ploidy = 2 then ((if fix3 then agreementFixed p0 p1 else agreementFaithful p0 p1).getD []) else []
+      let st1 : PairState := { st with bed := bed, total := addErrors st.total e, pairs := st.pairs + (block.length - 1),
+                                       perBlock := st.perBlock ++ [(positions, e, agrAny)] }
       if st.longest < block.length then
         if ploidy = 2 then
           match (if fix3 then agreementFixed p0 p1 else agreementFaithful p0 p1) with
@@ -278,7 +284,8 @@ def comparePair (fixA fixB fix3 : Bool) (ploidy : Nat) (t0 t1 : List Call) : Opt
            largest := st.longestErr
            bed := st.bed
            longestPositions := st.longestPos
-           longestAgreement := st.longestAgr }
+           longestAgreement := st.longestAgr
+           perBlock := st.perBlock }
 
 def hapLe : Hap → Hap → Bool
   | [], _ => true
